@@ -22,7 +22,7 @@ CASE_TIMEOUT = {"quick": 1200, "thorough": 3000}
 def cases(tier, rng):
     n = 14 if tier == "quick" else 84
     return [
-        {"seed": int(rng.integers(1 << 30)), "steps": int(rng.integers(8, 24 if tier == "quick" else 50)), "pml": ["some", "all", None][i % 3]}
+        {"seed": int(rng.integers(1 << 30)), "steps": int(rng.integers(8, 24 if tier == "quick" else 50)), "pml": ["some", "all", None][i % 3], "mclass": i}
         for i in range(n)
     ]
 
@@ -56,10 +56,12 @@ def _one(sc, r):
         detectors=("field", "energy", "poynting", "phasor"),
         n_detectors=(1, 3),
         grid=("uniform", "rect"),
+        material_class=sc.get("mclass"),
     )
     for d in scene["detectors"]:
         d["exact"] = False
     meta = scene["meta"]
+    r.branch("material_class:" + str(meta.get("material_class", "drawn")))
     # permeability tier wider than the permittivity tier (isotropic eps everywhere, diagonal mu in one box)
     if meta["material_tier"] in ("none", "iso") and "tfsf" not in meta["source_kinds"] and rng.random() < 0.6:
         ilo, ihi = scenes.interior_box(scene)
